@@ -25,7 +25,7 @@ import (
 
 func TestMain(m *testing.M) { drv.Main(m) }
 
-const rule = "state machine on the real application: 1-2 balancer pools (2 assets, and 3 assets whose denoms share prefixes aaa/bbb/bbb2) and optionally one concentrated pool that is created empty or funded, drained (every position withdrawn: no spot price) and refilled, blocks with millisecond-aligned irregular spacing (1 ms .. days), price-moving swaps / joins / exits in some blocks and idle blocks, the twap module's EndBlock after every block (transient changed-pool set cleared as a commit would), pruning passes (twap epoch hook + EndBlock batches run to completion) and queries: every ordered pair of a pool, start/end on, between, before and after record times, ...ToNow variants; oracle: the harness records the end-of-block spot price it obtains itself from the pool manager after every block; arithmetic TWAP == trunc18(sum p_i dt_i / dt) exactly; geometric TWAP == 2^(sum log2(p_i) dt_i / dt) within relative 2e-7 (the module rounds the result to 8 significant figures and derives one quote direction from the reciprocal of the other's 8-significant-figure spot prices); both within [min,max] of the prices in force; the two geometric quote directions multiply to 1 within 4e-7; a start before the first record fails cleanly; an interval in which a drained pool's missing price is in force must return an error flag (intervals touching only the creation block of a pool funded in that block may or may not be flagged); answers for intervals inside the retention window are identical before and after a complete pruning pass; non-trivial = interval spans >= 2 records with different prices and does not start on a record; distinct by history+query hash"
+const rule = "state machine on the real application: 1-2 balancer pools (2 assets, and 3 assets whose denoms share prefixes aaa/bbb/bbb2) and optionally one concentrated pool that is created empty or funded, drained (every position withdrawn: no spot price) and refilled, blocks with irregular spacing (1 ms .. days; in half of the cases with nanosecond parts, as real block times have, and queries at nanosecond offsets - the reference weights each segment by the difference of the millisecond-floored timestamps, the module's canonical time), price-moving swaps / joins / exits in some blocks and idle blocks, the twap module's EndBlock after every block (transient changed-pool set cleared as a commit would), pruning passes (twap epoch hook + EndBlock batches run to completion) and queries: every ordered pair of a pool, start/end on, between, before and after record times, ...ToNow variants; oracle: the harness records the end-of-block spot price it obtains itself from the pool manager after every block; arithmetic TWAP == trunc18(sum p_i dt_i / dt) exactly; geometric TWAP == 2^(sum log2(p_i) dt_i / dt) within relative 2e-7 (the module rounds the result to 8 significant figures and derives one quote direction from the reciprocal of the other's 8-significant-figure spot prices); both within [min,max] of the prices in force; the two geometric quote directions multiply to 1 within 4e-7; a start before the first record fails cleanly; an interval in which a drained pool's missing price is in force must return an error flag (intervals touching only the creation block of a pool funded in that block may or may not be flagged); answers for intervals inside the retention window are identical before and after a complete pruning pass; non-trivial = interval spans >= 2 records with different prices and does not start on a record; distinct by history+query hash"
 
 type obs struct {
 	t time.Time
@@ -101,10 +101,12 @@ func (p *pool) segments(s, e time.Time, key string) (prices []*big.Int, ms []int
 		if !o.t.Before(e) {
 			break
 		}
-		prices, ms = append(prices, cur), append(ms, o.t.Sub(curT).Milliseconds())
+		// the module weights every segment by the difference of the millisecond-floored timestamps of its ends, so
+		// that the weights of an interval always add up to floorMs(e) - floorMs(s)
+		prices, ms = append(prices, cur), append(ms, o.t.UnixMilli()-curT.UnixMilli())
 		curT, cur = o.t, o.p[key]
 	}
-	prices, ms = append(prices, cur), append(ms, e.Sub(curT).Milliseconds())
+	prices, ms = append(prices, cur), append(ms, e.UnixMilli()-curT.UnixMilli())
 	return prices, ms, true
 }
 
@@ -229,6 +231,10 @@ func TestPropTwap(t *testing.T) {
 		}
 		// creation block
 		endBlock(time.Duration(rapid.Int64Range(1, 5000).Draw(rt, "firstGapMs")) * time.Millisecond)
+		subMs := rapid.Bool().Draw(rt, "subMillisecondTimes")
+		if subMs {
+			cs.Class("sub-millisecond-block-times")
+		}
 		pruned := false
 		nontrivial := false
 		errChecked := false
@@ -257,6 +263,10 @@ func TestPropTwap(t *testing.T) {
 				}
 			}
 			s, e := pick("start"), pick("end")
+			if subMs && rapid.Bool().Draw(rt, "nsOffsets") {
+				s = s.Add(time.Duration(rapid.Int64Range(-999_999, 999_999).Draw(rt, "startNs")))
+				e = e.Add(time.Duration(rapid.Int64Range(-999_999, 999_999).Draw(rt, "endNs")))
+			}
 			if s.After(e) {
 				s, e = e, s
 			}
@@ -448,6 +458,10 @@ func TestPropTwap(t *testing.T) {
 				default:
 					dt = time.Duration(rapid.Int64Range(1, 60).Draw(rt, "h")) * time.Hour
 				}
+				if subMs {
+					// real block times carry nanoseconds
+					dt += time.Duration(rapid.Int64Range(0, 999_999).Draw(rt, "ns"))
+				}
 				endBlock(dt)
 				hist = append(hist, fmt.Sprintf("+%s", dt))
 			},
@@ -542,5 +556,42 @@ func TestKnown_C10_geometric_zero_accum(t *testing.T) {
 	g, err := c.App.TwapKeeper.GetGeometricTwap(c.Ctx, id, "aaa", "bbb", start, start.Add(time.Second))
 	if err == nil && g.IsZero() {
 		drv.Reproduced(t, "C10-geometric-zero-accum")
+	}
+}
+
+// TestRegress_C10_sub_millisecond_interval: a query whose start and end lie within the same millisecond but differ in
+// their nanoseconds divided by a zero millisecond count and panicked (fixed: such an interval has length zero).
+func TestRegress_C10_sub_millisecond_interval(t *testing.T) {
+	c := chain.New(t)
+	c.Fund(chain.Actor(0), sdk.NewCoins(coin("uosmo", 1<<50), coin("aaa", 1<<50), coin("bbb", 1<<50)))
+	msg := balancer.NewMsgCreateBalancerPool(chain.Actor(0), balancer.PoolParams{SwapFee: osmomath.ZeroDec(), ExitFee: osmomath.ZeroDec()},
+		[]balancer.PoolAsset{{Weight: osmomath.NewInt(1), Token: coin("aaa", 1_000_000)}, {Weight: osmomath.NewInt(1), Token: coin("bbb", 4_000_000)}}, "")
+	if r := c.Exec(&msg); !r.OK() {
+		t.Fatalf("create pool: %v", r.Err)
+	}
+	id := c.App.PoolManagerKeeper.GetNextPoolId(c.Ctx) - 1
+	start := c.Ctx.BlockTime()
+	c.App.TwapKeeper.EndBlock(c.Ctx)
+	c.Advance(time.Second)
+	c.Advance(time.Second)
+	s := start.Add(500 * time.Millisecond)
+	e := s.Add(300 * time.Microsecond)
+	var a, g osmomath.Dec
+	var err1, err2 error
+	func() {
+		defer func() {
+			if r := recover(); r != nil {
+				t.Fatalf("TWAP over [%s, +300us] panicked: %v", s.Sub(start), r)
+			}
+		}()
+		a, err1 = c.App.TwapKeeper.GetArithmeticTwap(c.Ctx, id, "aaa", "bbb", s, e)
+		g, err2 = c.App.TwapKeeper.GetGeometricTwap(c.Ctx, id, "aaa", "bbb", s, e)
+	}()
+	sp, err := c.App.PoolManagerKeeper.RouteCalculateSpotPrice(c.Ctx, id, "bbb", "aaa")
+	if err != nil || err1 != nil || err2 != nil {
+		t.Fatalf("errors: %v %v %v", err, err1, err2)
+	}
+	if !a.Equal(sp.Dec()) || !g.Equal(sp.Dec()) {
+		t.Fatalf("TWAP over a sub-millisecond interval: arithmetic %s geometric %s, spot price in force %s", a, g, sp)
 	}
 }
